@@ -75,6 +75,13 @@ CHECKS.update({
             "TLA+ spec + TLC trace validation", "5 (C15)"),
 })
 
+CHECKS.update({
+    "C17": ("model_checking", "TLC checks the DfaBuilder algorithm as coded against the declarative edit distance on the UTF-8 encodings of every key in "
+            "scope (MC_Lev) and validates the real automaton's verdict for every (q,d,k) of the scope, its search results, random longer "
+            "strings and its behaviour under state limits.",
+            "TLA+ spec + TLC model checking + trace validation", "5 (C17)"),
+})
+
 NOT_YET = {
 }
 
